@@ -97,10 +97,25 @@ main(int argc, char** argv)
             snprintf(nm, sizeof nm, "/gen-%05d.tape", dump_no++);
             fe::write_tape(fe::g_outdir + nm, tape.data(), tape.size());
         }
+        // every tape this process has run before its first failure, in order: a failure that no fresh process
+        // reproduces is replayed as a sequence (hist.seq, minimised by vcheck.py)
+        static std::vector<std::vector<VhTok>> history;
+        if (!in_shrink)
+            history.push_back(tape);
         VhReport r;
         memset(&r, 0, sizeof r);
         vh_run(tape.data(), tape.size(), &r);
         st.account(tape.data(), tape.size(), r, in_shrink);
+        if (r.verdict && !in_shrink) {
+            if (FILE* hf = fopen((fe::g_outdir + "/hist.seq").c_str(), "wb")) {
+                fwrite(fe::kSeqMagic, 1, 7, hf);
+                for (auto& h : history)
+                    fe::append_seq(hf, h.data(), h.size());
+                fclose(hf);
+            }
+            history.clear();
+            history.shrink_to_fit();
+        }
         if (r.verdict) {
             if (!in_shrink)
                 shrink_t0 = fe::now_s();
